@@ -3297,3 +3297,17 @@ def _(m, callee, args):
     a = args[1] if len(args) > 1 else ()
     a = deref_all(m, a) if isinstance(a, (Ref, ValRef)) else a
     return m.call_closure(args[0], list(a) if isinstance(a, (tuple, list)) else [a])
+
+
+@model(r'^<(std::sync::)?Mutex<.*> as (std::default::)?Default>::default$|^(std::sync::)?Mutex::<.*>::new$')
+def _(m, callee, args):
+    """a mutex around a fresh value (Default) or the given one; the export registry keeps its dedicated model (get_export_paths)"""
+    if callee.endswith('::new') and args:
+        return ('mutex', args[0])
+    q = re.search(r'Mutex<(.*)> as', callee)
+    return ('mutex', default_of(q.group(1)) if q else HMap())
+
+
+@model(r'^<(std::sync::)?OnceLock<.*> as (std::default::)?Default>::default$')
+def _(m, callee, args):
+    return ('oncelock-static',)
